@@ -18,6 +18,7 @@ import Genshi.Model.ParseEnv
     C07 lower text                            -- `str.lower` (`pyLower`); answer: the string
     C07 unent text                            -- `stripentities` (`stripReal`); answer: ( ok text ) | ( err Name )
     C07 qname text                            -- `QName(text)` (`mkQName`); answer: ( ns local )
+    C07 pi text                               -- `handle_pi(text)` (`piEvent`); answer: ( target data )
     Every callback item carries the tokenizer's position as two trailing atoms: ( ST tag attrs line col ) ...
     answer: ( ( ( event line col )... ) ok ) | ( ( ... ) ( parseError line col ) ) | ( ( ... ) ( propagate sName ) )
             | unmodelled
@@ -148,6 +149,10 @@ def handle : List Sexp → Option Sexp
       let items ← items.mapM xmlItem?
       pure (ofBool (wfList doc && decide (items.map (Item.map Prod.fst) = (callbacksList doc).map Item.cb)))
   | [.atom "qname", .str s] => some (mkQName s).toSexp
+  | [.atom "pi", .str s] =>
+      match piEvent s with
+      | .pi t d => some (.list [.str t, .str d])
+      | _ => none
   | [.atom "coalesce", f, s] => do
       let f ← f.toBool?; let s ← streamOfSexp? s; pure (streamToSexp (coalesceGo f none s))
   | [.atom "linecount", .str s] => some (ofNat (lineCount s))
